@@ -42,7 +42,9 @@ def norm_tree(e):
         if c.tail:
             kids.append(("#", c.tail))
             texts.append(c.tail)
-    if has_el and all(is_ws(t) for t in texts):
+    if has_el and all(is_ws(t) and "\n" in t for t in texts):
+        # layout only: the pretty writer's own text nodes are a line break plus indentation. White space WITHOUT a line break (a
+        # space between two <output/>s of a label) is text content and must survive in both modes.
         kids = [k for k in kids if k[0] != "#"]
     else:
         merged = []
